@@ -851,6 +851,11 @@ func (c *Context) Ln(d, x *Decimal) (Condition, error) {
 
 			ed.Add(&tmp1, &tmp1, &tmp4)
 
+			// Once an operation has failed the terms are no longer updated
+			// and would never get small enough to end the loop.
+			if err := ed.Err(); err != nil {
+				return 0, err
+			}
 			if tmp4.Abs(&tmp4).Cmp(&eps) <= 0 {
 				break
 			}
